@@ -72,7 +72,8 @@ def structured_random(rng, params, max_frames=200):
                 ims, ims + 1, 2 * max_sil + 1]
     crit_valid = [x for x in crit_valid if x >= 1]
     crit_sil = [x for x in crit_sil if x >= 1]
-    target = rng.choice([rng.randint(0, 12), rng.randint(5, 40), rng.randint(20, max_frames)])
+    target = rng.choice([rng.randint(0, min(12, max_frames)), rng.randint(min(5, max_frames), min(40, max_frames)),
+                         rng.randint(min(20, max_frames), max_frames)])
     v = []
     valid = rng.random() < 0.6
     while len(v) < target:
